@@ -1,10 +1,175 @@
-import CueVerif.Driver.Proto
-namespace CueVerif.Driver.C03
-open CueVerif CueVerif.Driver
+/-
+Line protocol of the C03 model driver.
 
-/-- protocol handler for C03: words of one op line (after the property id) → answer -/
+  atom        n | t | f | i:<int> | d:<coeff>:<exp> | s:<hex> | y:<hex>
+              (null, true, false, int, float = coeff·10^exp exactly as apd holds it,
+               string, bytes; hex "-" = empty)
+  constraint  a:<atom> | t:<null|bool|int|float|number|string|bytes|top> is NOT used for null
+              (null is the atom) | b:<lt|le|gt|ge|ne|mat|nmat>:<atom> | r:<range name>
+  list        constraints joined by ",", "-" for the empty list
+  kind        a decimal bit mask (adt.Kind)
+
+  ops   accept <list> <atom>   O  `c₁ & … & cₙ` (the list contains the atom as one conjunct, at any
+                                  position) evaluates to that atom: yes | no          (model `evalS`)
+        sat <list> <atom>      O  the SPEC: the atom satisfies every conjunct: yes | no
+        acceptv <list> <atoms> O  for each atom a of the ";"-joined list: `list & a` evaluates to a
+                                  (y), is an error (n), anything else (o)              (model)
+        satv <list> <atoms>    O  for each atom: the SPEC says it satisfies every conjunct (y/n)
+        eval <list>            O  atom <atom> | nonatom                               (model `evalS`)
+        resid <list>           I  bottom | atom <atom> | residual <kind> <sorted bounds>
+                                  (the list is given in the order the scheduler inserts it)
+        cell <kind> <b> <b>    I  outcome of SimplifyBounds: keepX | keepY | both | err
+                                  (bounds written <op>:<atom>)
+
+Regular expressions: the harness only uses patterns `[^]lit[$]` with a literal body; `re` below
+implements exactly that class (the theorems are for an arbitrary oracle).
+-/
+import CueVerif.Driver.Proto
+import CueVerif.Spec.Scalar
+namespace CueVerif.Driver.C03
+open CueVerif CueVerif.Driver CueVerif.Scalar
+
+/-! regexp oracle for the literal class -/
+def isPrefix : List Nat → List Nat → Bool
+  | [], _ => true
+  | _ :: _, [] => false
+  | a :: as, b :: bs => a == b && isPrefix as bs
+
+def containsAt (anchoredEnd : Bool) (p : List Nat) : List Nat → Bool
+  | [] => p.isEmpty
+  | s@(_ :: rest) =>
+    (isPrefix p s && (!anchoredEnd || p.length == s.length)) || containsAt anchoredEnd p rest
+
+def reLit (p s : List Nat) : Bool :=
+  let (anchS, p1) := match p with
+    | 94 :: r => (true, r)
+    | _ => (false, p)
+  let (anchE, body) := match p1.reverse with
+    | 36 :: r => (true, r.reverse)
+    | _ => (false, p1)
+  if anchS then isPrefix body s && (!anchE || body.length == s.length)
+  else containsAt anchE body s
+
+/-! parsing -/
+def parseAtomW : List String → Option Atom
+  | ["n"] => some .null
+  | ["t"] => some (.bool true)
+  | ["f"] => some (.bool false)
+  | ["i", z] => (parseInt? z).map .int
+  | ["d", c, e] => do let c ← parseInt? c; let e ← parseInt? e; pure (.float ⟨c, e⟩)
+  | ["s", h] => (unhex h).map .str
+  | ["y", h] => (unhex h).map .bytes
+  | _ => none
+
+def parseAtom (s : String) : Option Atom := parseAtomW (s.splitOn ":")
+
+def parseOp : String → Option Op
+  | "lt" => some .lt | "le" => some .le | "gt" => some .gt | "ge" => some .ge
+  | "ne" => some .ne | "mat" => some .mat | "nmat" => some .nmat
+  | _ => none
+
+def parseKindName : String → Option Kind
+  | "bool" => some Kind.bool | "int" => some Kind.int | "float" => some Kind.float
+  | "number" => some Kind.number | "string" => some Kind.string | "bytes" => some Kind.bytes
+  | "top" => some Kind.top | "null" => some Kind.null
+  | _ => none
+
+def parseRange : String → Option Range
+  | "rune" => some .rune | "int8" => some .int8 | "int16" => some .int16 | "int32" => some .int32
+  | "int64" => some .int64 | "int128" => some .int128 | "uint" => some .uint | "uint8" => some .uint8
+  | "uint16" => some .uint16 | "uint32" => some .uint32 | "uint64" => some .uint64
+  | "uint128" => some .uint128 | "float32" => some .float32 | "float64" => some .float64
+  | _ => none
+
+def parseBoundW : List String → Option Bound
+  | op :: rest => do let o ← parseOp op; let v ← parseAtomW rest; pure ⟨o, v⟩
+  | _ => none
+
+def parseConstraint (s : String) : Option Constraint :=
+  match s.splitOn ":" with
+  | "a" :: rest => (parseAtomW rest).map .atom
+  | ["t", k] => (parseKindName k).map .type
+  | "b" :: rest => (parseBoundW rest).map .bound
+  | ["r", r] => (parseRange r).map .range
+  | _ => none
+
+def parseList (s : String) : Option (List Constraint) :=
+  if s == "-" then some [] else (s.splitOn ",").mapM parseConstraint
+
+/-! printing -/
+def showAtom : Atom → String
+  | .null => "n"
+  | .bool true => "t"
+  | .bool false => "f"
+  | .int z => s!"i:{z}"
+  | .float d => let n := d.normalize; s!"d:{n.coeff}:{n.exp}"
+  | .str s => "s:" ++ hex s
+  | .bytes s => "y:" ++ hex s
+
+def showOp : Op → String
+  | .lt => "lt" | .le => "le" | .gt => "gt" | .ge => "ge" | .ne => "ne" | .mat => "mat" | .nmat => "nmat"
+
+/-- value-canonical text of a bound (numbers normalised, int/float operand not distinguished) -/
+def showBound (b : Bound) : String :=
+  let v := match b.val.num? with
+    | some d => let n := d.normalize; s!"num:{n.coeff}:{n.exp}"
+    | none => showAtom b.val
+  showOp b.op ++ ":" ++ v
+
+def insertSorted (x : String) : List String → List String
+  | [] => [x]
+  | y :: ys => if x ≤ y then x :: y :: ys else y :: insertSorted x ys
+
+def showOutcome : Outcome → String
+  | .keepX => "keepX" | .keepY => "keepY" | .both => "both" | .err => "err"
+
 def handle (ws : List String) : String :=
   match ws with
+  | ["accept", cs, a] =>
+    match parseList cs, parseAtom a with
+    | some cs, some a =>
+      match evalS reLit cs with
+      | .atom b => if b.same a then "yes" else "other"
+      | _ => "no"
+    | _, _ => "bad-op"
+  | ["sat", cs, a] =>
+    match parseList cs, parseAtom a with
+    | some cs, some a => if satAll reLit cs a then "yes" else "no"
+    | _, _ => "bad-op"
+  | ["acceptv", cs, as] =>
+    match parseList cs, (as.splitOn ";").mapM parseAtom with
+    | some cs, some as =>
+      String.ofList (as.map fun a =>
+        match evalS reLit (cs ++ [.atom a]) with
+        | .atom b => if b.same a then 'y' else 'o'
+        | _ => 'n')
+    | _, _ => "bad-op"
+  | ["satv", cs, as] =>
+    match parseList cs, (as.splitOn ";").mapM parseAtom with
+    | some cs, some as =>
+      String.ofList (as.map fun a => if satAll reLit (cs ++ [.atom a]) a then 'y' else 'n')
+    | _, _ => "bad-op"
+  | ["eval", cs] =>
+    match parseList cs with
+    | some cs =>
+      match evalS reLit cs with
+      | .atom b => "atom " ++ showAtom b
+      | _ => "nonatom"
+    | none => "bad-op"
+  | ["resid", cs] =>
+    match parseList cs with
+    | some cs =>
+      match evalS reLit cs with
+      | .bottom => "bottom"
+      | .atom b => "atom " ++ showAtom b
+      | .residual k bs =>
+        let ss := (bs.map showBound).foldr insertSorted []
+        s!"residual {k} " ++ (if ss.isEmpty then "-" else ",".intercalate ss)
+    | none => "bad-op"
+  | ["cell", k, x, y] =>
+    match k.toNat?, parseBoundW (x.splitOn ":"), parseBoundW (y.splitOn ":") with
+    | some k, some x, some y => showOutcome (simplifyBounds reLit k x y)
+    | _, _, _ => "bad-op"
   | _ => "bad-op"
 
 end CueVerif.Driver.C03
